@@ -13,7 +13,7 @@ CHECKS = {
     "C13": dict(
         text="Partial ('nothing invalid is emitted'): every packet emission in the deframer is dominated by the length, minimum-size and "
              "(checksum on) CRC-equality guards; over-long accumulations are abandoned; after a recognised closing flag the state is "
-             "Synced and restarts with no collected bits (a rejected frame does not disturb the next); frame-length arithmetic is guarded; the bytes pushed after the bit-fixing step flow from that step's result (what is emitted is what was validated). 'Every valid frame is recovered' is "
+             "Synced and restarts with no collected bits (a rejected frame does not disturb the next); frame-length arithmetic is guarded; the bytes pushed after the bit-fixing step flow from that step's result (what is emitted is what was validated); a whole-window consume walks the whole window. 'Every valid frame is recovered' is "
              "a round-trip value property and is not decided.",
         design="§4 C13", technique="guard-fact dominance on MIR + content-taint/guard analysis"),
     "C14": dict(
@@ -31,7 +31,7 @@ CHECKS = {
         text="Structural: the protocol that justifies `unsafe impl Sync for Circ` has the required shape - raw memory and window "
              "constructors reachable only through the window API (call graph + signature rule), window bounds are one snapshot "
              "taken under the state guard, ring state only inside a Mutex and read-modify-written under one lock acquisition, "
-             "each side writes only its own position, compile-fail witnesses for one handle per side / by-value commit / unique "
+             "each side writes only its own position, releases are checked against the fill level, at most one window per stream end is alive at any request, compile-fail witnesses for one handle per side / by-value commit / unique "
              "borrow, unsafe-impl inventory, acyclic lock order, handle-count ceiling. Disjointness of the snapshot ranges and "
              "linearizability as such are not decided.",
         design="§4 C03", technique="call-graph who-may-call + lock-guard liveness dataflow + compile_fail witnesses"),
@@ -39,7 +39,7 @@ CHECKS = {
         text="Partial: for derive-generated sync blocks chunk-independence holds by construction, checked on the generated MIR "
              "of every in-crate user and a generated family (lock-step iteration from 0, take(n), one process call per sample, "
              "no state written by work()). For hand-written blocks the bounded-copy rule and rate consistency (consume(a) with "
-             "produce(a/c) needs a multiple of c), written-before-committed, counted consume, moved-out state restored, advanced copies stored back, fills committed, and no per-call limit/discard of state grown per sample. Other carried-state arithmetic of hand-written blocks is not decided.",
+             "produce(a/c) needs a multiple of c), written-before-committed, counted consume, moved-out state restored, advanced copies stored back, fills committed, no per-call limit/discard of state grown per sample, and no bulk copy of a partially consumed window into carried state. Other carried-state arithmetic of hand-written blocks is not decided.",
         design="§4 C08", technique="structural rules on macro-generated MIR over a generated program family"),
     "C12": dict(
         text="Partial: the stream stores only tags of committed samples and consume(0) removes none (central contract), and on "
@@ -78,7 +78,7 @@ CHECKS = {
     "C17": dict(
         text="Abstract interpretation of the OpenOptions builder per `match mode` arm against the documented table "
              "(both sinks must agree), and must-pass analysis: stream consumption is acknowledged only behind the Ok "
-             "edges of write_all then flush on the same writer. Decides the property up to the trusted OS semantics.",
+             "edges of write_all then flush on the same writer, and a whole-window consume serialises the whole window. Decides the property up to the trusted OS semantics.",
         design="§4 C17", technique="abstract interpretation of builder flags + must-pass/dominance on MIR"),
     "C18": dict(
         text="Who-may-call, typestate and ownership rules on MIR: mmap/munmap only inside Map; every successful mmap is "
@@ -95,17 +95,17 @@ CHECKS = {
     "C05": dict(
         text="Static classification of every exit of the per-block thread loop of the multithreaded runner by "
              "flag-sensitive path search on MIR, plus spawn/join structure and lock-free waits. Necessary "
-             "conditions for termination with nothing dropped (incl. no block parked on its output while holding consumed input); does not decide schedule-independence of results.",
+             "conditions for termination with nothing dropped (incl. no block parked on its output while holding consumed input, no second live window on a stream end); does not decide schedule-independence of results.",
         design="§4 C05", technique="flag-sensitive CFG path search on MIR"),
     "C06": dict(
-        text="Static path analysis of Graph::run (no Ok return in a pass with a live verdict; retirement discipline) "
+        text="Static path analysis of Graph::run (no Ok return in a pass with a live verdict; retirement discipline; a block is skipped only when it is finished) "
              "plus an assume/guarantee check of the runner's quiescence inference against the effect summary of every "
              "Block::work body (known findings list the block/verdict pairs that break it).",
         design="§4 C06", technique="flag-sensitive CFG path search + per-block effect summaries on MIR"),
     "C07": dict(
         text="Static error-discipline and cancellation analysis of both runners: no block error is unwrapped, Err of "
              "work()/joined threads flows to run()'s return value, every work() cycle polls the cancel token with an "
-             "exiting true edge, all threads joined on all paths; a recorded failure survives the join loop and nothing that can panic runs before it is returned.",
+             "exiting true edge, all threads joined on all paths; a recorded failure survives the join loop and nothing that can panic runs before it is returned; a failing block thread cancels the token itself.",
         design="§4 C07", technique="type-driven call-site rule + taint-to-return + cycle/poll analysis on MIR"),
 }
 
